@@ -265,6 +265,16 @@ def sc(m):
     return m[0][0] if m else None
 
 
+DOC_JITTER_F64 = 1e-6    # documented default of `jitter_val` in float64 (settings.variational_cholesky_jitter: 1e-4 / 1e-6)
+
+
+def jitter_of_args(arg):
+    """ε the strategy must use, computed from the constructor ARGUMENT (`None` -> the documented float64 default) and
+    never from `strategy.jitter_val` read back: a getter that mangles a falsy / boundary value (`jitter_val=0.0`) would
+    hand the same wrong value to a reference that reads the attribute."""
+    return F(DOC_JITTER_F64 if arg is None else float(arg))
+
+
 # ------------------------------------------------------------------ model zoo (real code)
 
 def make_gp(cfg, Z, dist_cls, dist_batch, strat_kwargs=None):
@@ -273,15 +283,17 @@ def make_gp(cfg, Z, dist_cls, dist_batch, strat_kwargs=None):
     V = gpytorch.variational
     kb = torch.Size(cfg.get("kb", []))
     M = Z.shape[-2]
-    dist = getattr(V, dist_cls)(M, batch_shape=torch.Size(dist_batch))
+    dkw = {"mean_init_std": cfg["mean_init_std"]} if "mean_init_std" in cfg else {}
+    dist = getattr(V, dist_cls)(M, batch_shape=torch.Size(dist_batch), **dkw)
     strat_cls = getattr(V, cfg["strategy"])
     kw = dict(strat_kwargs or {})
-    if cfg.get("jitter") is not None:
+    if cfg.get("jitter") is not None and cfg.get("jitter_via") != "setter":
         kw["jitter_val"] = cfg["jitter"]
+    learn = bool(cfg.get("learn_Z", True))
 
     class GP(gpytorch.models.ApproximateGP):
         def __init__(self):
-            vs = strat_cls(self, Z, dist, learn_inducing_locations=True, **kw)
+            vs = strat_cls(self, Z, dist, learn_inducing_locations=learn, **kw)
             super().__init__(vs)
             if cfg.get("mean", "const") == "const":
                 self.mean_module = gpytorch.means.ConstantMean(batch_shape=kb)
@@ -299,6 +311,8 @@ def make_gp(cfg, Z, dist_cls, dist_batch, strat_kwargs=None):
             return gpytorch.distributions.MultivariateNormal(self.mean_module(x), self.covar_module(x))
 
     model = GP().double()
+    if cfg.get("jitter") is not None and cfg.get("jitter_via") == "setter":
+        model.variational_strategy.jitter_val = cfg["jitter"]       # the documented setter instead of the constructor
     return model, dist
 
 
@@ -528,13 +542,45 @@ def expand_inputs(x, Z):
     return x.expand(*bs, *x.shape[-2:]), Z.expand(*bs, *Z.shape[-2:])
 
 
+def scale_to_condition(Z0, kernel, ls, os_, target):
+    """Scale factor s such that cond(K(s·Z0)) is close to `target` for the stand-alone kernel with the given
+    hyper-parameters (bisection in log s; the condition number grows as the points move together)."""
+    import gpytorch
+    import numpy as np
+    import torch
+    base = gpytorch.kernels.RBFKernel() if kernel == "rbf" else gpytorch.kernels.MaternKernel(nu=2.5)
+    k = gpytorch.kernels.ScaleKernel(base).double()
+    k.base_kernel.lengthscale = ls
+    k.outputscale = os_
+
+    def cond(s_):
+        with torch.no_grad():
+            return float(np.linalg.cond(k(Z0 * s_).to_dense().numpy()))
+    lo, hi = math.log(0.005), math.log(20.0)
+    for _ in range(40):
+        mid = (lo + hi) / 2
+        if cond(math.exp(mid)) > target:
+            lo = mid
+        else:
+            hi = mid
+    return math.exp(hi)
+
+
 def build_basic(cfg, rng):
-    """Model + variational distribution + inputs of one basic configuration (all randomness from rng)."""
+    """Model + variational distribution + inputs of one basic configuration (all randomness from rng); also returns
+    the inducing-point tensor that was PASSED to the constructor."""
     import torch
     torch.manual_seed(rng.torch_seed())
     pname, zb, pb, xb, kb = next(p for p in PATTERNS if p[0] == cfg["pattern"])
     M, n, d = cfg["M"], cfg["n"], cfg["d"]
     Z = spread_points([*zb, M, d], rng)
+    hy = None
+    if cfg.get("cond_target"):
+        # boundary cell: a moderately ill-conditioned Kzz (still fine for a float64 Cholesky) — with `jitter_val=0.0`
+        # every spurious diagonal shift is then visible.  The hyper-parameters are fixed up front so that Z can be chosen.
+        hy = (rng.uniform(0.8, 1.4), rng.uniform(0.6, 1.8))
+        zscale = scale_to_condition(Z, cfg.get("kernel", "rbf"), hy[0], hy[1], cfg["cond_target"])
+        Z = Z * zscale
     model, dist = make_gp(dict(cfg, kb=kb), Z, cfg["dist"], pb)
     vs = model.variational_strategy
     if cfg.get("x_eq_z") == "alias":
@@ -543,10 +589,87 @@ def build_basic(cfg, rng):
         x = Z.clone()
     else:
         x = spread_points([*xb, n, d], rng, lo=-2.5, hi=2.5, min_dist=0.2)
+        if hy is not None:
+            x = x * zscale     # inputs stay next to the (contracted) inducing set: Kzz⁻¹Kzx remains of moderate size
     randomize_hypers(model, rng)
-    vs.variational_params_initialized.fill_(1)
-    randomize_dist(dist, rng)
-    return model, dist, x
+    if hy is not None:
+        model.covar_module.base_kernel.lengthscale = hy[0]
+        model.covar_module.outputscale = hy[1]
+    if not cfg.get("init"):
+        vs.variational_params_initialized.fill_(1)
+        randomize_dist(dist, rng)
+    return model, dist, x, Z
+
+
+# ------------------------------------------------------------------ copy histories
+
+def strategies_of(model):
+    from gpytorch.variational._variational_strategy import _VariationalStrategy
+    return [m_ for m_ in model.modules() if isinstance(m_, _VariationalStrategy)]
+
+
+def perturb_everything(model, rng):
+    """New values for EVERYTHING the model owns: kernel / mean hyper-parameters, variational parameters, inducing points
+    (not the fixed grid), LMC coefficients.  Done in training mode (the documented way to change parameters)."""
+    import torch
+    model.train()
+    randomize_hypers(model, rng)
+    with torch.no_grad():
+        for st in strategies_of(model):
+            d_ = st._modules.get("_variational_distribution")
+            if d_ is not None:
+                randomize_dist(d_, rng)
+            if "inducing_points" in st._parameters or (
+                    "inducing_points" in st._buffers and type(st).__name__ != "GridInterpolationVariationalStrategy"):
+                st.inducing_points.add_(torch.empty_like(st.inducing_points).uniform_(-0.06, 0.06))
+            if "lmc_coefficients" in st._parameters:
+                st.lmc_coefficients.normal_()
+
+
+def pickle_roundtrip(model, how):
+    """pickle / torch.save round trip of the whole model.  The GP classes of the zoo are defined inside functions;
+    they are registered under a module-level name for the duration of the round trip."""
+    import io
+    import pickle
+    import torch
+    cls = type(model)
+    saved = (cls.__qualname__, cls.__module__)
+    name = f"_C14GP_{id(cls)}"
+    cls.__qualname__, cls.__module__ = name, __name__
+    globals()[name] = cls
+    try:
+        if how == "pickle":
+            return pickle.loads(pickle.dumps(model))
+        buf = io.BytesIO()
+        torch.save(model, buf)
+        buf.seek(0)
+        return torch.load(buf, weights_only=False)
+    finally:
+        cls.__qualname__, cls.__module__ = saved
+        globals().pop(name, None)
+
+
+def copy_step(ctx, cfg, model, x, rng):
+    """Copy histories: build -> (use) -> deepcopy / pickle the WHOLE model -> give the copy or the original new values for
+    everything it owns -> return the one to be evaluated.  The caller judges it against the closed form of ITS OWN
+    parameters and modules, so each of the two objects must follow only its own state.  The two members of a pair
+    (`eval` = copy / original) share one rng label, i.e. the identical build and history."""
+    c = cfg.get("copy")
+    if not c:
+        return model
+    import copy
+    import torch
+    for mode in c.get("pre_call", []):     # the model was already used: memoised q(u), p(u), chol(Kzz) exist
+        model.train(mode == "train")
+        with torch.no_grad():
+            o = model(x)
+            o.mean.sum().item()
+            for st in strategies_of(model)[:1]:
+                st.kl_divergence()
+    clone = copy.deepcopy(model) if c["how"] == "deepcopy" else pickle_roundtrip(model, c["how"])
+    perturb_everything(clone if c["modify"] == "copy" else model, rng)
+    ctx.count(f"copy-history:{c['how']}/modify={c['modify']}/eval={c['eval']}")
+    return clone if c["eval"] == "copy" else model
 
 
 def apply_history(ctx, cfg, model, x, rng, drv=None, dist=None):
@@ -574,7 +697,7 @@ def apply_history(ctx, cfg, model, x, rng, drv=None, dist=None):
         if "train-first" in h:
             call("train", x)
         call("eval", x)
-        other, _, _ = build_basic(dict(cfg, x_eq_z=False), C.Rng(f"{C.seed()}:{cfg.get('rng_label')}:other"))
+        other, _, _, _ = build_basic(dict(cfg, x_eq_z=False), C.Rng(f"{C.seed()}:{cfg.get('rng_label')}:other"))
         sd = other.state_dict()
         if "old-format" in h:
             # checkpoint written before the whitened parameterisation: no `updated_strategy` flag; its variational
@@ -603,6 +726,38 @@ def apply_history(ctx, cfg, model, x, rng, drv=None, dist=None):
     raise RuntimeError(f"unknown history {h}")
 
 
+def unwhitened_prior_eps():
+    """The jitter `UnwhitenedVariationalStrategy.prior_distribution` adds to Kzz, read from the source (AST): the
+    `add_jitter()` default of linear_operator, `jitter_val`, or a literal."""
+    src_ = open(os.path.join(C.REPO, "gpytorch/variational/unwhitened_variational_strategy.py")).read()
+    for node in ast.walk(ast.parse(src_)):
+        if isinstance(node, ast.FunctionDef) and node.name == "prior_distribution":
+            for c_ in ast.walk(node):
+                if isinstance(c_, ast.Call) and isinstance(c_.func, ast.Attribute) and c_.func.attr == "add_jitter":
+                    if not c_.args and not c_.keywords:
+                        return add_jitter_default()
+                    if len(c_.args) == 1 and isinstance(c_.args[0], ast.Constant):
+                        return F(float(c_.args[0].value))
+                    if len(c_.args) == 1 and ast.unparse(c_.args[0]) == "self.jitter_val":
+                        return "jitter_val"
+    raise RuntimeError("unwhitened prior_distribution: add_jitter call not recognised")
+
+
+def init_expected(cfg, whitened, kzz, mz, Mi):
+    """(m, S, R) of q(u) right after `initialize_variational_distribution(p(u))` with `mean_init_std = 0`: the prior of
+    the inducing values itself — N(0, I) in whitened coordinates, N(mz, Kzz + ε_prior I) for the unwhitened strategy
+    (mean-field keeps its diagonal).  Nothing is read back from the distribution object."""
+    if cfg["dist"] == "DeltaVariationalDistribution":
+        return (zeros(Mi, 1) if whitened else mz), zeros(Mi, Mi), zeros(Mi, 1)
+    if whitened:
+        return zeros(Mi, 1), eye(Mi), eye(Mi)
+    ep = unwhitened_prior_eps()
+    Pm = add_jit(kzz, jitter_of_args(cfg.get("jitter")) if ep == "jitter_val" else ep)
+    if cfg["dist"] == "MeanFieldVariationalDistribution":
+        Pm = [[Pm[i][j] if i == j else Fraction(0) for j in range(Mi)] for i in range(Mi)]
+    return mz, Pm, hp_chol(Pm)
+
+
 def run_basic(ctx, drv, cfg, rng, replay_only=None):
     """VariationalStrategy / UnwhitenedVariationalStrategy: eval (mean, cov, KL) and train (mean, var, KL)."""
     import torch
@@ -611,11 +766,24 @@ def run_basic(ctx, drv, cfg, rng, replay_only=None):
     whitened = strat == "VariationalStrategy"
     pname, zb, pb, xb, kb = next(p for p in PATTERNS if p[0] == cfg["pattern"])
     M, d = cfg["M"], cfg["d"]
-    model, dist, x = build_basic(cfg, rng)
-    n = x.shape[-2]
+    model, dist, x, Zarg = build_basic(cfg, rng)
+    model = copy_step(ctx, cfg, model, x, rng)
     vs = model.variational_strategy
+    dist = vs._variational_distribution
+    n = x.shape[-2]
     old_q = apply_history(ctx, cfg, model, x, rng, drv, dist)
-    eps = F(vs.jitter_val)
+    if cfg.get("init"):
+        # initialisation path: nothing marked as initialised, the first call (in the given mode) sets q(u) := p(u)
+        model.train(cfg["init"] == "train-first")
+        with torch.no_grad():
+            model(x)
+        ctx.count(f"init-path:{cfg['init']}")
+    # ε and Z are taken from the constructor ARGUMENTS (never from attributes read back from the strategy); Z only when
+    # no later step of the history (load_state_dict of another checkpoint, the harness' own perturbation of a copy)
+    # legitimately replaced the inducing points
+    eps = jitter_of_args(cfg.get("jitter"))
+    z_from_args = not cfg.get("copy") and not str(cfg.get("history") or "").startswith("load") \
+        and cfg.get("x_eq_z") != "alias"
     results = {}
     with gpytorch.settings.trace_mode(bool(cfg.get("trace_mode", False))):
         for mode in ("eval", "train"):
@@ -632,7 +800,7 @@ def run_basic(ctx, drv, cfg, rng, replay_only=None):
                     var = out.variance.detach().clone()
                 kl = vs.kl_divergence().detach().clone()
             results[mode] = (mean, cov, var, kl, kl_before)
-    xx, Zx = expand_inputs(x, vs.inducing_points.detach())
+    xx, Zx = expand_inputs(x, (Zarg if z_from_args else vs.inducing_points).detach())
     Kzz, Kzx, Kxx, mX, mZ = joint_blocks(model, Zx, xx, M)
     out_batch = tuple(results["eval"][0].shape[:-1])
     ok_all = True
@@ -647,7 +815,9 @@ def run_basic(ctx, drv, cfg, rng, replay_only=None):
         kappa = float(np.linalg.cond(kt_f))
         desc = f"{strat}/{cfg['dist']} pattern={pname} M={M} n={n} d={d} kernel={cfg.get('kernel','rbf')} " \
                f"mean={cfg.get('mean','const')} jitter={cfg.get('jitter')} x_eq_z={cfg.get('x_eq_z', False)} " \
-               f"trace_mode={bool(cfg.get('trace_mode'))} history={cfg.get('history')} idx={list(idx)}"
+               f"trace_mode={bool(cfg.get('trace_mode'))} history={cfg.get('history')} idx={list(idx)}" \
+               + "".join(f" {k_}={cfg[k_]}" for k_ in ("jitter_via", "learn_Z", "mean_init_std", "init", "cond_target",
+                                                      "copy") if k_ in cfg)
         if kappa > COND_MAX:
             ctx.count("discarded_ill_conditioned")
             continue
@@ -667,6 +837,13 @@ def run_basic(ctx, drv, cfg, rng, replay_only=None):
             if hasS:
                 cmp_.mat("dist.covariance", bget(qd.covariance_matrix, idx, 2).tolist(), S)
         Mi = len(m)
+        if cfg.get("init"):
+            # q(u) after the initialisation with the explicit `mean_init_std=0`: exactly p(u), computed from the ARGUMENTS
+            m_a, S_a, R_a = init_expected(cfg, whitened, kzz, mz, Mi)
+            cmp_.mat("init.mean", fl(m), m_a)
+            if hasS:
+                cmp_.mat("init.covariance", fl(S), S_a)
+            m, S, R = m_a, S_a, R_a
         if whitened:
             kt = add_jit(kzz, eps)
             L = hp_chol(kt)
@@ -833,8 +1010,11 @@ def run_ciq(ctx, drv, cfg, rng, replay_only=None):
     randomize_hypers(model, rng)
     vs.variational_params_initialized.fill_(1)
     randomize_dist(dist, rng)
+    model = copy_step(ctx, cfg, model, x, rng)
+    vs = model.variational_strategy
+    dist = vs._variational_distribution
     ngd = cfg["dist"] == "NaturalVariationalDistribution"
-    eps = F(vs.jitter_val)
+    eps = jitter_of_args(cfg.get("jitter"))
     res = {}
     with tight_ciq():
         for mode in ("eval", "train"):
@@ -852,7 +1032,8 @@ def run_ciq(ctx, drv, cfg, rng, replay_only=None):
         kzz = sym_lower(kzz)
         mx = fcol(bget(mX, idx, 1))
         kappa = kappa_of(kzz, eps)
-        desc = f"CiqVariationalStrategy/{cfg['dist']} pattern={pname} M={M} n={n} d={d} idx={list(idx)}"
+        desc = f"CiqVariationalStrategy/{cfg['dist']} pattern={pname} M={M} n={n} d={d} idx={list(idx)}" \
+               + (f" copy={cfg['copy']}" if cfg.get("copy") else "")
         if kappa > COND_MAX:
             ctx.count("discarded_ill_conditioned")
             continue
@@ -907,7 +1088,10 @@ def run_batch_decoupled(ctx, drv, cfg, rng, replay_only=None):
         vs.inducing_points.copy_(spread_points(list(vs.inducing_points.shape), rng))
     vs.variational_params_initialized.fill_(1)
     randomize_dist(dist, rng)
-    eps = F(vs.jitter_val)
+    model = copy_step(ctx, cfg, model, x, rng)
+    vs = model.variational_strategy
+    dist = vs._variational_distribution
+    eps = jitter_of_args(cfg.get("jitter"))
     res = {}
     for mode in ("eval", "train"):
         model.train(mode == "train")
@@ -921,7 +1105,8 @@ def run_batch_decoupled(ctx, drv, cfg, rng, replay_only=None):
     for idx in itertools.product(*[range(s) for s in res["eval"][0].shape[:-1]]):
         if replay_only is not None and list(idx) != list(replay_only):
             continue
-        desc = f"BatchDecoupledVariationalStrategy/{cfg['dist']} outer={outer} kb={kb} M={M} n={n} d={d} idx={list(idx)}"
+        desc = f"BatchDecoupledVariationalStrategy/{cfg['dist']} outer={outer} kb={kb} M={M} n={n} d={d} " \
+               f"jitter={cfg.get('jitter')} idx={list(idx)}" + (f" copy={cfg['copy']}" if cfg.get("copy") else "")
         m, S, R, hasS = exact_dist(drv, dist, idx)
         parts = []
         kap = 1.0
@@ -994,6 +1179,10 @@ def run_orth(ctx, drv, cfg, rng, replay_only=None):
     base.variational_params_initialized.fill_(1)
     randomize_dist(bdist, rng)
     randomize_dist(mdist, rng)
+    model = copy_step(ctx, cfg, model, x, rng)
+    vs = model.variational_strategy
+    base = vs.base_variational_strategy
+    bdist, mdist = base._variational_distribution, vs._variational_distribution
     whitened = cfg["base"] == "VariationalStrategy"
     modes = ("eval", "train")
     res = {}
@@ -1003,8 +1192,7 @@ def run_orth(ctx, drv, cfg, rng, replay_only=None):
             out = model(x)
             res[mode] = (out.mean.detach().clone(), out.covariance_matrix.detach().clone() if mode == "eval" else None,
                          out.variance.detach().clone(), vs.kl_divergence().detach().clone())
-    eps_b = F(base.jitter_val)
-    eps_o = F(vs.jitter_val)
+    eps_b = eps_o = jitter_of_args(cfg.get("jitter"))      # the same argument is passed to both constructors
     # base q(f) at [x; Zm]
     xz = torch.cat([x, vs.inducing_points.detach()], dim=-2)
     Kzz, Kzx, Kxx, mX, mZ = joint_blocks(model, base.inducing_points.detach(), xz, M)
@@ -1018,7 +1206,7 @@ def run_orth(ctx, drv, cfg, rng, replay_only=None):
         if replay_only is not None and list(idx) != list(replay_only):
             continue
         desc = f"OrthogonallyDecoupledVariationalStrategy(base={cfg['base']}/{cfg['dist']}) pb={pb} M={M} Mm={Mm} n={n} " \
-               f"d={d} jitter={cfg.get('jitter')} idx={list(idx)}"
+               f"d={d} jitter={cfg.get('jitter')} idx={list(idx)}" + (f" copy={cfg['copy']}" if cfg.get("copy") else "")
         m, S, R, hasS = exact_dist(drv, bdist, idx)
         mm = fcol(bget(mdist.variational_mean.detach(), idx, 1))
         if whitened:
@@ -1122,6 +1310,9 @@ def run_grid(ctx, drv, cfg, rng, replay_only=None):
     vs.variational_params_initialized.fill_(1)
     randomize_dist(dist, rng)
     x = torch.tensor([[rng.uniform(-0.95, 0.95) for _ in range(dim)] for _ in range(n)], dtype=torch.float64)
+    model = copy_step(ctx, cfg, model, x, rng)
+    vs = model.variational_strategy
+    dist = vs._variational_distribution
     res = {}
     for mode in ("eval", "train"):
         model.train(mode == "train")
@@ -1130,7 +1321,7 @@ def run_grid(ctx, drv, cfg, rng, replay_only=None):
             res[mode] = (out.mean.detach().clone(), out.covariance_matrix.detach().clone(),
                          out.variance.detach().clone(), vs.kl_divergence().detach().clone())
     jit = grid_prior_jitter()
-    epsp = F(vs.jitter_val if jit == "jitter_val" else jit)
+    epsp = jitter_of_args(None) if jit == "jitter_val" else F(jit)
     with torch.no_grad():
         ii, iv = vs._compute_grid(x)
         pr = model.forward(vs.inducing_points)
@@ -1143,7 +1334,8 @@ def run_grid(ctx, drv, cfg, rng, replay_only=None):
     for idx in itertools.product(*[range(s) for s in res["eval"][0].shape[:-1]]):
         if replay_only is not None and list(idx) != list(replay_only):
             continue
-        desc = f"GridInterpolationVariationalStrategy/{cfg['dist']} grid={g}^{dim} n={n} pb={pb} idx={list(idx)}"
+        desc = f"GridInterpolationVariationalStrategy/{cfg['dist']} grid={g}^{dim} n={n} pb={pb} idx={list(idx)}" \
+               + (f" copy={cfg['copy']}" if cfg.get("copy") else "")
         m, S, R, hasS = exact_dist(drv, dist, idx)
         iib, ivb = bget(ii, idx, 2), bget(iv, idx, 2)
         W = zeros(n, M)
@@ -1185,12 +1377,14 @@ def run_multitask(ctx, drv, cfg, rng, replay_only=None):
     x = spread_points([n, d], rng, lo=-2.5, hi=2.5, min_dist=0.2)
     base_cls = getattr(V, cfg["base"])
     bdist = getattr(V, cfg["dist"])(M, batch_shape=torch.Size(lat))
+    jkw = {} if cfg.get("jitter") is None else {"jitter_val": cfg["jitter"]}
+    ljkw = {} if cfg.get("lmc_jitter") is None else {"jitter_val": cfg["lmc_jitter"]}
 
     class GP(gpytorch.models.ApproximateGP):
         def __init__(self):
-            base = base_cls(self, Z, bdist, learn_inducing_locations=True)
+            base = base_cls(self, Z, bdist, learn_inducing_locations=bool(cfg.get("learn_Z", True)), **jkw)
             if kind == "lmc":
-                vs_ = V.LMCVariationalStrategy(base, num_tasks=Tn, num_latents=Qn, latent_dim=-1)
+                vs_ = V.LMCVariationalStrategy(base, num_tasks=Tn, num_latents=Qn, latent_dim=-1, **ljkw)
             else:
                 vs_ = V.IndependentMultitaskVariationalStrategy(base, num_tasks=Tn)
             super().__init__(vs_)
@@ -1210,6 +1404,10 @@ def run_multitask(ctx, drv, cfg, rng, replay_only=None):
     if kind == "lmc":
         with torch.no_grad():
             vs.lmc_coefficients.normal_()
+    model = copy_step(ctx, cfg, model, x, rng)
+    vs = model.variational_strategy
+    base = vs.base_variational_strategy
+    bdist = base._variational_distribution
     tau = [rng.randrange(Tn) for _ in range(n)]
     res = {}
     for mode in ("eval", "train"):
@@ -1225,11 +1423,12 @@ def run_multitask(ctx, drv, cfg, rng, replay_only=None):
                          vs.kl_divergence().detach().clone(), outi.mean.detach().clone(),
                          outi.covariance_matrix.detach().clone(), bool(getattr(out, "_interleaved", True)))
     whitened = cfg["base"] == "VariationalStrategy"
-    eps_b = F(base.jitter_val)
-    xx, Zx = expand_inputs(x, base.inducing_points.detach())
+    eps_b = jitter_of_args(cfg.get("jitter"))
+    xx, Zx = expand_inputs(x, (base.inducing_points if cfg.get("copy") else Z).detach())   # Z: the constructor ARGUMENT
     Kzz, Kzx, Kxx, mX, mZ = joint_blocks(model, Zx, xx, M)
     desc = f"{type(vs).__name__}[{kind}](base={cfg['base']}/{cfg['dist']}) Q={Qn} T={Tn} M={M} n={n} d={d} " \
-           f"z_batched={cfg.get('z_batched', True)} k_batched={cfg.get('k_batched', True)}"
+           f"z_batched={cfg.get('z_batched', True)} k_batched={cfg.get('k_batched', True)}" \
+           + "".join(f" {k_}={cfg[k_]}" for k_ in ("jitter", "lmc_jitter", "learn_Z", "copy") if cfg.get(k_) is not None)
     mus, Cs, kls, kap = [], [], [], 1.0
     kls_code = []
     nlat = Qn if lat else 1
@@ -1254,7 +1453,7 @@ def run_multitask(ctx, drv, cfg, rng, replay_only=None):
             kls_code.append(ex["kl_code"] if ex["kl_code"] is not None else ex["kl"])
     if kind == "lmc":
         A = fmat(vs.lmc_coefficients.detach())
-        eps_l = F(vs.jitter_val)
+        eps_l = jitter_of_args(cfg.get("lmc_jitter"))
         mats = " ".join(toks(mu) for mu in mus) + " " + " ".join(toks(Cv) for Cv in Cs)
         fmean, fcov = drv.ask(f"L {Qn} {n} {Tn} {C.rat_str(eps_l)} {toks(A)} {mats}")
         imean, icov = drv.ask(f"LI {Qn} {n} {Tn} {C.rat_str(eps_l)} {toks(A)} {' '.join(map(str, tau))} {mats}")
@@ -1342,9 +1541,14 @@ def run_multitask_batched(ctx, drv, cfg, rng, replay_only=None):
         with torch.no_grad():
             vs.lmc_coefficients.normal_()
     tau = [rng.randrange(Tn) for _ in range(n)]
+    model = copy_step(ctx, cfg, model, x, rng)
+    vs = model.variational_strategy
+    base = vs.base_variational_strategy
+    bdist = base._variational_distribution
     whitened = cfg["base"] == "VariationalStrategy"
     desc = f"{type(vs).__name__}[{kind}] latent_dim={ld} Q={Qn} B={Bm} T={Tn} (base={cfg['base']}/{cfg['dist']}) M={M} n={n} " \
-           f"d={d} z_batched={cfg.get('z_batched', True)} k_batched={cfg.get('k_batched', False)}"
+           f"d={d} z_batched={cfg.get('z_batched', True)} k_batched={cfg.get('k_batched', False)}" \
+           + (f" copy={cfg['copy']}" if cfg.get("copy") else "")
     key = f"{type(vs).__name__}:{kind}/latent_dim={ld}"
     replay = {"cfg": cfg, "idx": None, "runner": "multitask_batched"}
     res = {}
@@ -1362,7 +1566,7 @@ def run_multitask_batched(ctx, drv, cfg, rng, replay_only=None):
                 ctx.count("rejected_by_real_code:indep+task_dim=-2+task_indices")
             res[mode] = (out.mean.detach().clone(), out.covariance_matrix.detach().clone(), out.variance.detach().clone(),
                          vs.kl_divergence().detach().clone(), mi, ci)
-    eps_b = F(base.jitter_val)
+    eps_b = jitter_of_args(None)
     xx, Zx = expand_inputs(x, base.inducing_points.detach())
     xx = xx.expand(*bs, *xx.shape[-2:])
     Zx = Zx.expand(*bs, *Zx.shape[-2:])
@@ -1402,7 +1606,7 @@ def run_multitask_batched(ctx, drv, cfg, rng, replay_only=None):
         mats = " ".join(toks(mu) for mu in mus) + " " + " ".join(toks(Cv) for Cv in Cs)
         if kind == "lmc":
             A = fmat(vs.lmc_coefficients.detach()[:, b, :] if ld == -2 else vs.lmc_coefficients.detach()[b])
-            eps_l = F(vs.jitter_val)
+            eps_l = jitter_of_args(None)
             fmean, fcov = drv.ask(f"L {Qn} {n} {Tn} {C.rat_str(eps_l)} {toks(A)} {mats}")
             imean, icov = drv.ask(f"LI {Qn} {n} {Tn} {C.rat_str(eps_l)} {toks(A)} {' '.join(map(str, tau))} {mats}")
         else:
@@ -1554,6 +1758,99 @@ def basic_configs(ctx):
     return cfgs
 
 
+def boundary_configs(ctx):
+    """Round-3 classes (appended after the older jobs so that their rng labels stay what they were):
+    (a) explicit constructor arguments at falsy / boundary values — `jitter_val=0.0` (constructor and setter; also with a
+        moderately ill-conditioned Kzz, cond ~ 1e5..1e6), `learn_inducing_locations=False`, explicit `mean_init_std=0` /
+        `0.0` with the initialisation path actually run (first call sets q(u) := p(u): q(f) = prior, KL = 0) — judged
+        against the closed form of the ARGUMENTS;
+    (b) copy histories — deepcopy / pickle / torch.save of the whole model, optionally after it was used, then new values
+        for everything the copy (or the original) owns, then BOTH evaluated against their own closed forms."""
+    rng = ctx.rng("boundary-configs")
+    q = ctx.quick
+    out = []
+    two = ("VariationalStrategy", "UnwhitenedVariationalStrategy")
+
+    def basic(strat, dist, **kw):
+        c = {"strategy": strat, "dist": dist, "pattern": "none", "M": rng.randint(2, 5), "n": rng.randint(2, 5),
+             "d": rng.choice([1, 2]), "kernel": rng.choice(["rbf", "matern"]), "mean": rng.choice(["const", "linear"]),
+             "jitter": None}
+        c.update(kw)
+        return ("basic", c)
+    # ---- (a) jitter_val = 0.0 / 0 (falsy), through the constructor and through the setter, ill-conditioned Kzz
+    for strat in two:
+        for k, dist in enumerate(DISTS[:2] if q else DISTS):
+            for via in ("ctor", "setter"):
+                out.append(basic(strat, dist, jitter=[0.0, 0][k % 2], jitter_via=via, M=rng.randint(5, 8), d=1, kernel="rbf",
+                                 cond_target=rng.choice([1e5, 1e6])))
+            out.append(basic(strat, dist, jitter=0.0, pattern=rng.choice(["params", "Z+params", "kernel+params"])))
+    # ---- (a) learn_inducing_locations = False (inducing points registered as a buffer)
+    for strat in two:
+        for dist in (DISTS[:2] if q else DISTS):
+            for pat in ("none", "Z+params"):
+                out.append(basic(strat, dist, learn_Z=False, pattern=pat, jitter=rng.choice([None, 0.0, 1e-4])))
+        out.append(basic(strat, DISTS[0], learn_Z=False, history="load"))
+    # ---- (a) explicit mean_init_std = 0 and the initialisation path (nothing pre-initialised by the harness)
+    k = 0
+    for strat in two:
+        for dist in DISTS:
+            if strat.startswith("Unwh") and dist == "NaturalVariationalDistribution" and q:
+                continue
+            for pat in (["none"] if q else ["none", "params", "Z+params"]):
+                k += 1
+                out.append(basic(strat, dist, pattern=pat, mean_init_std=[0, 0.0][k % 2],
+                                 init=["eval-first", "train-first"][(k // 2) % 2], jitter=rng.choice([None, 0.0, 1e-4])))
+    # ---- (a) wrappers with falsy jitters / buffer inducing points
+    out.append(("batch_decoupled", {"dist": DISTS[0], "outer": [], "kb": [2], "mvbd": False, "M": rng.randint(2, 4),
+                                    "n": rng.randint(2, 4), "d": 1, "kernel": "rbf", "mean": "const", "jitter": 0.0}))
+    for base in two:
+        out.append(("orth", {"base": base, "dist": DISTS[0], "pb": [], "M": rng.randint(2, 4), "Mm": rng.randint(2, 4),
+                             "n": rng.randint(2, 4), "d": 1, "kernel": "rbf", "jitter": 0.0}))
+    out.append(("ciq", {"strategy": "CiqVariationalStrategy", "dist": DISTS[0], "pattern": "none", "M": rng.randint(2, 4),
+                        "n": rng.randint(2, 4), "d": 1, "kernel": "rbf", "mean": "const", "jitter": 0.0}))
+    for kind, lj, lz in (("lmc", 0.0, False), ("lmc", 0, True), ("indep", None, False)):
+        Qn = rng.randint(2, 3)
+        out.append(("multitask", {"kind": kind, "base": "VariationalStrategy", "dist": rng.choice(DISTS[:2]), "Q": Qn,
+                                  "T": Qn if kind == "indep" else rng.randint(2, 3), "M": rng.randint(2, 4),
+                                  "n": rng.randint(2, 3), "d": 1, "z_batched": True, "k_batched": True,
+                                  "jitter": 0.0, "lmc_jitter": lj, "learn_Z": lz}))
+    # ---- (b) copy histories
+    combos = [("copy", "copy"), ("copy", "original"), ("original", "copy"), ("original", "original")]
+    hows = [("deepcopy", []), ("deepcopy", ["eval"]), ("pickle", ["train", "eval"]), ("torch.save", []),
+            ("pickle", []), ("deepcopy", ["train", "eval"])]
+    pair = 0
+    for si, strat in enumerate(two):
+        for hi, (how, pre) in enumerate(hows[:3] if q else hows):
+            base_cfg = basic(strat, DISTS[(si + hi) % len(DISTS)] if not q else DISTS[hi % 2],
+                             pattern=["none", "params", "Z+params"][hi % 3])[1]
+            pair += 1
+            for mod, ev in combos:
+                out.append(("basic", dict(base_cfg, copy={"how": how, "pre_call": pre, "modify": mod, "eval": ev},
+                                          rng_label=f"copy:{pair}")))
+    wrappers = [
+        ("batch_decoupled", {"dist": DISTS[0], "outer": [], "kb": [2], "mvbd": False, "M": 3, "n": 3, "d": 1, "kernel": "rbf",
+                             "mean": "const", "jitter": None}),
+        ("orth", {"base": "VariationalStrategy", "dist": DISTS[0], "pb": [], "M": 3, "Mm": 3, "n": 3, "d": 1,
+                  "kernel": "rbf", "jitter": None}),
+        ("grid", {"dist": DISTS[0], "g": 6, "dim": 1, "n": 3, "pb": []}),
+        ("ciq", {"strategy": "CiqVariationalStrategy", "dist": DISTS[1], "pattern": "none", "M": 3, "n": 3, "d": 1,
+                 "kernel": "rbf", "mean": "const", "jitter": None}),
+        ("multitask", {"kind": "lmc", "base": "VariationalStrategy", "dist": DISTS[0], "Q": 2, "T": 3, "M": 3, "n": 2, "d": 1,
+                       "z_batched": True, "k_batched": True}),
+        ("multitask", {"kind": "indep", "base": "UnwhitenedVariationalStrategy", "dist": DISTS[1], "Q": 2, "T": 2, "M": 3,
+                       "n": 2, "d": 1, "z_batched": False, "k_batched": True}),
+        ("multitask_batched", {"kind": "lmc", "latent_dim": -2, "Q": 2, "B": 2, "T": 2, "base": "VariationalStrategy",
+                               "dist": DISTS[0], "M": 2, "n": 2, "d": 1, "z_batched": True, "k_batched": False}),
+    ]
+    for wi, (runner, wcfg) in enumerate(wrappers):
+        pair += 1
+        how, pre = hows[wi % len(hows)]
+        for mod, ev in (combos[:3] if q else combos):
+            out.append((runner, dict(wcfg, copy={"how": how, "pre_call": pre, "modify": mod, "eval": ev},
+                                     rng_label=f"copy:{pair}")))
+    return out
+
+
 def guarded(ctx, drv, runner, cfg):
     """Run one configuration; an exception raised by the *real code* on a valid configuration is a failure of the
     property on that input (driver / harness problems are re-raised and end up as a broken correspondence)."""
@@ -1584,9 +1881,9 @@ def correspondence(ctx):
     warnings.simplefilter("ignore")
     drv = open_driver(ctx)
     try:
-        jobs = [("basic", cfg) for cfg in basic_configs(ctx)] + extra_configs(ctx)
+        jobs = [("basic", cfg) for cfg in basic_configs(ctx)] + extra_configs(ctx) + boundary_configs(ctx)
         for i, (runner, cfg) in enumerate(jobs):
-            cfg["rng_label"] = f"{runner}:{i}"
+            cfg.setdefault("rng_label", f"{runner}:{i}")     # (the members of a copy-history pair share their label)
             guarded(ctx, drv, runner, cfg)
     finally:
         drv.close()
@@ -1611,13 +1908,13 @@ def search(ctx, broken):
     ctx.tier = "thorough"
     try:
         jobs = [("basic", c) for c in basic_configs(ctx) if c.get("trace_mode") or c.get("history") or c.get("x_eq_z")
-                or c.get("jitter") == 0.0] + extra_configs(ctx)
+                or c.get("jitter") == 0.0] + extra_configs(ctx) + boundary_configs(ctx)
     finally:
         ctx.tier = tier
     drv = open_driver(ctx)
     try:
         for i, (runner, cfg) in enumerate(jobs):
-            cfg["rng_label"] = f"search:{runner}:{i}"
+            cfg["rng_label"] = f"search:{cfg['rng_label']}" if "rng_label" in cfg else f"search:{runner}:{i}"
             guarded(ctx, drv, runner, cfg)
             if len(ctx.failures) > 40:
                 break
